@@ -1,6 +1,7 @@
 """C11 — every accepted request gets exactly one matching response from the right zone.
 COUNT (send_response per path), gate order and rcode table, id/question echo provenance, longest-suffix search."""
 import re
+import argnames
 import helpers
 import core, count
 from api import shorten
@@ -180,4 +181,9 @@ def run(cx):
         cx.guard('C11.G1', non, {'only-at-root': r'^LowerName::is_root\(\^arg2\)$'}, expect=1, fn=fc)
 
     # ---------------------------------------------------------------- H helper semantics the guards above rely on (rules/helpers.py)
-    helpers.check(cx, 'C11.H', ['Edns::version', 'LowerName::base_name', 'LowerName::is_root'])
+    helpers.check(cx, 'C11.H', ['Edns::version', 'LowerName::base_name', 'LowerName::is_root', 'AccessControl::allow'])
+
+    # ---------------------------------------------------------------- N1 argument names agree with the parameters they are bound to (engine/argnames.py)
+    argnames.check(cx, 'C11.N1', r'hickory_server::server|hickory_server::zone_handler::catalog|hickory_server::access', floor=45)
+    argnames.check_fields(cx, 'C11.N1', r'hickory_server::server|hickory_server::zone_handler::catalog|hickory_server::access', floor=29)
+
